@@ -38,6 +38,10 @@ import (
 var baselineSigsJSON []byte
 
 type condSig struct {
+	TF bool     `json:"tf,omitempty"` // the true side can run into the false side's code
+	FT bool     `json:"ft,omitempty"`
+	TX bool     `json:"tx,omitempty"` // the true side's first block leaves the function
+	FX bool     `json:"fx,omitempty"`
 	C  string   `json:"c"`
 	P  string   `json:"p,omitempty"` // operand pair "x ~ y" for comparisons
 	T  []string `json:"t"`
@@ -157,6 +161,11 @@ func (w *World) sigString(v ssa.Value, d int) string {
 		}
 		return name + "(" + strings.Join(as, ",") + ")"
 	case *ssa.Phi:
+		// a source variable assigned on several paths: its name is the stable handle (the set of incoming values
+		// changes with every edit of the control flow around it)
+		if x.Comment != "" {
+			return "$" + x.Comment
+		}
 		var es []string
 		for _, e := range x.Edges {
 			es = append(es, w.sigString(e, d+2))
@@ -367,7 +376,18 @@ func (w *World) computeSig(root *ssa.Function) funcSig {
 					pos = v.Pos()
 				}
 			}
-			sig.Conds = append(sig.Conds, condSig{C: c, P: pair, T: ts, F: fs, at: pos})
+			into := func(a, b *ssa.BasicBlock) bool { return a != b && blockReach(a, nil)[b] }
+			leaves := func(b *ssa.BasicBlock) bool {
+				if len(b.Instrs) == 0 {
+					return false
+				}
+				switch b.Instrs[len(b.Instrs)-1].(type) {
+				case *ssa.Return, *ssa.Panic:
+					return true
+				}
+				return false
+			}
+			sig.Conds = append(sig.Conds, condSig{C: c, P: pair, T: ts, F: fs, TF: into(t, f), FT: into(f, t), TX: leaves(t), FX: leaves(f), at: pos})
 		}
 		// argument order at calls of repository functions
 		eachInstr(fn, func(in ssa.Instruction) {
@@ -603,7 +623,8 @@ func sigRules(w *World, r *Report, prop string) {
 					}
 					return had && !has
 				}
-				if (lost(rs[i].T, cs[i].T) && eqSet(rs[i].F, cs[i].F)) || (lost(rs[i].F, cs[i].F) && eqSet(rs[i].T, cs[i].T)) {
+				_ = lost
+				if (rs[i].TX && !cs[i].TX && cs[i].TF && !rs[i].TF) || (rs[i].FX && !cs[i].FX && cs[i].FT && !rs[i].FT) {
 					r.Fail(prop+"-B7", cons, cs[i].at, "in the reference tree the function is left on one side of this decision (a guard that rejects, an error exit); in this tree that side falls through into the code the guard protected, while the other side is unchanged: the `return` was removed or moved")
 					continue
 				}
